@@ -5,6 +5,7 @@ go 1.23
 require (
 	github.com/anishathalye/porcupine v1.3.0
 	github.com/irai/packet v0.0.0
+	gopkg.in/yaml.v2 v2.4.0
 )
 
 require (
@@ -14,7 +15,6 @@ require (
 	gitlab.com/golang-commonmark/puny v0.0.0-20191124015043-9f83538fa04f // indirect
 	golang.org/x/net v0.34.0 // indirect
 	golang.org/x/sys v0.29.0 // indirect
-	gopkg.in/yaml.v2 v2.4.0 // indirect
 )
 
 replace github.com/irai/packet => /repo
